@@ -772,6 +772,11 @@ DEEP = {
     # nested calls: every level must be checked once (a checker that re-checks arguments is exponential in the depth)
     "call_nest": ("part", "S_DECLARATION", "doc", "", lambda n: "int f(int x){return x;} int v = " + "f(" * n + "1" + ")" * n + ";"),
     "call_nest_args": ("part", "S_DECLARATION", "doc", "", lambda n: "int f(int x,int y){return x;} int v = " + "f(1," * n + "1" + ")" * n + ";"),
+    # a DAG of constant initialisers (a_k = a_0 + ... + a_{k-1}) reaching a template-local array size: the dependency closure must visit each
+    # constant once, not once per path
+    "const_dag": ("xta", "-", "doc", "", lambda n: "const int a0 = 1;\n" + "".join(
+        "const int a%d = %s;\n" % (k, " + ".join("a%d" % j for j in range(k))) for k in range(1, n + 1)) +
+        "process P() { int arr[a%d]; state s; init s; }\nQ(const int[0,1] q) = P();\nsystem Q;" % n),
     "system_list": ("xta", "-", "doc", "", lambda n: "process P(){state A;init A;} system P" + ",P" * n + ";"),
     "system_priority": ("xta", "-", "doc", "", lambda n: "process P(){state A;init A;} system P" + "<P" * n + ";"),
     "xta_states": ("xta", "-", "doc", "", lambda n: "process P(){state " + ",".join("A%d" % k for k in range(n + 1)) + ";init A0;} system P;"),
@@ -816,6 +821,8 @@ def deep_triple(name, thorough):
     """n such that n, 2n, 4n are measured for growth: the largest `round` n whose 4n-input stays below a byte budget.
     The PrettyPrinter families are quadratic (string concatenation): their sizes stay either far below or far above the
     point where the CPU budget is reached (about 45 000 operands), so that the verdict never depends on machine load."""
+    if name == "const_dag":
+        return []              # its text is quadratic in n by construction: the fixed sizes of deep_sizes are the test
     unit = max(1.0, len(DEEP[name][4](200)) / 200.0)
     if DEEP[name][2] == "pretty":
         return [2500]
@@ -833,6 +840,8 @@ def deep_sizes(name, thorough):
     unit = max(1.0, len(DEEP[name][4](200)) / 200.0)
     pretty = DEEP[name][2] == "pretty"
     sizes = {100, 1000}
+    if name == "const_dag":
+        return [10, 20, 30, 40, 56, 80]      # the text grows quadratically; path counting would need 2^n steps
     if name.startswith("call_nest"):
         sizes |= {10, 20, 30, 40, 60}      # beyond about 90 levels the parser gives up, so exponential checking shows only below that
     for n in deep_triple(name, thorough):
